@@ -3,8 +3,19 @@
 pub struct ShellVariable { _p: u8 }
 impl ShellVariable {
     pub uninterp spec fn readonly(&self) -> bool;
+    pub uninterp spec fn is_placeholder(&self) -> bool;   // a declared-but-unset variable: ShellValue::Unset(..)
     #[verifier::external_body]
     pub fn is_readonly(&self) -> (r: bool) ensures r == self.readonly() { unimplemented!() }
+    // variables.rs: value() is `&self.value`; ShellValue::is_set() is "not the Unset variant"
+    #[verifier::external_body]
+    pub fn value(&self) -> (r: &ShellValue) ensures r.set_spec() == !self.is_placeholder() { unimplemented!() }
+}
+#[verifier::external_body]
+pub struct ShellValue { _p: u8 }
+impl ShellValue {
+    pub uninterp spec fn set_spec(&self) -> bool;
+    #[verifier::external_body]
+    pub fn is_set(&self) -> (r: bool) ensures r == self.set_spec() { unimplemented!() }
 }
 // ShellVariableMap's five methods are one-line HashMap delegations; vstd's HashMap<String, _> borrowed-key specs did not close
 // in the probes, so the map is opaque with ASSUMED map contracts (view: name -> variable)
@@ -15,6 +26,10 @@ impl ShellVariableMap {
     #[verifier::external_body]
     pub fn get(&self, name: &str) -> (r: Option<&ShellVariable>)
         ensures r is Some <==> self@.contains_key(name@), r is Some ==> *r->Some_0 == self@[name@]
+    { unimplemented!() }
+    #[verifier::external_body]
+    pub fn set(&mut self, name: &str, var: ShellVariable) -> (r: Option<ShellVariable>)
+        ensures final(self)@ == old(self)@.insert(name@, var)
     { unimplemented!() }
     #[verifier::external_body]
     pub fn unset(&mut self, name: &str) -> (r: Option<ShellVariable>)
@@ -45,4 +60,19 @@ pub proof fn lemma_push_pop_restores(old_scopes: Seq<(EnvironmentScope, ShellVar
     ensures old_scopes.push(pushed).drop_last() == old_scopes
 {
     assert(old_scopes.push(pushed).drop_last() =~= old_scopes);
+}
+
+// R14: `ShellVariable::new(ShellValue::Unset(ShellValueUnsetType::Untyped))` -> the "declared but unset" placeholder
+#[verifier::external_body]
+pub fn vx_unset_placeholder() -> (r: ShellVariable) ensures r.is_placeholder(), !r.readonly() { unimplemented!() }
+// the scope that `unset name` acts on: the innermost one that holds the name
+pub open spec fn innermost(sc: Seq<(EnvironmentScope, ShellVariableMap)>, k: int, name: Seq<char>) -> bool {
+    0 <= k < sc.len() && holds(sc, k, name) && forall|j: int| k < j < sc.len() ==> !holds(sc, j, name)
+}
+// scope k is the top-most local frame (the locals of the function that is running)
+pub open spec fn topmost_local(sc: Seq<(EnvironmentScope, ShellVariableMap)>, k: int) -> bool {
+    0 <= k < sc.len() && sc[k].0 is Local && forall|j: int| k < j < sc.len() ==> !(sc[j].0 is Local)
+}
+pub open spec fn same_but(a: Seq<(EnvironmentScope, ShellVariableMap)>, b: Seq<(EnvironmentScope, ShellVariableMap)>, k: int) -> bool {
+    a.len() == b.len() && forall|j: int| 0 <= j < a.len() && j != k ==> a[j].0 == b[j].0 && (#[trigger] a[j]).1@ == b[j].1@
 }
